@@ -11,6 +11,8 @@ var Registry = map[string]func(tier string) int{
 	"C10": C10,
 	"C11": C11,
 	"C12": C12,
+	"C13": C13,
+	"C14": C14,
 	"C15": C15,
 	"C16": C16,
 	"C19": C19,
